@@ -2,7 +2,7 @@
 Rules R1.7 / R10.1–R10.3 of DESIGN.md over the MIR of `PortableRegistry::retain` and its inner
 `retain_type`."""
 from ..lib import facts, mir, paths
-from ..lib.mir import path_str
+from ..lib.mir import path_str, is_call
 
 LEVEL = "other"
 EXPLANATION = (
@@ -99,7 +99,20 @@ def check_config(chk, prog, cfg):
                if is_arg(b.operand_term(t["args"][0]), A_MAP)]
     gets = [(bb, t) for bb, t in b.calls_to("alloc::collections::btree::map::BTreeMap::get")
             if is_arg(b.operand_term(t["args"][0]), A_MAP)]
-    rec = [(bb, t) for bb, t in b.calls() if b.callee_name(t) == mir.strip_generics(rt_path)]
+    # the entry API is the same lookup: `match map.entry(id) { Occupied(e) => return *e.get(), Vacant(v) => { v.insert(new_id); } }`
+    entry_form = False
+    if not gets:
+        gets = [(bb, t) for bb, t in b.calls_to("alloc::collections::btree::map::BTreeMap::entry") if is_arg(b.operand_term(t["args"][0]), A_MAP)]
+        entry_form = bool(gets)
+        if entry_form and not inserts:
+            ent = b.call_term(gets[0][1], bb=gets[0][0])
+            for bb, t in b.calls():
+                if b.callee_name(t).endswith("btree::map::entry::VacantEntry::insert"):
+                    recv = mir.strip_transparent(b.operand_term(t["args"][0]))
+                    if recv[0] == "field" and recv[1][0] == "downcast" and recv[1][3] == "Vacant" and recv[1][1] == ent:
+                        inserts.append((bb, {"args": [None, gets[0][1]["args"][1], t["args"][1]], "_entry": True}))
+    rewriters = find_rewriters(prog, rt_path)
+    rec = [(bb, t) for bb, t in b.calls() if b.callee_name(t) == mir.strip_generics(rt_path) or b.callee_name(t) in rewriters]
     chk.count("recursive_calls", len(rec))
 
     def is_new_id(t):
@@ -126,7 +139,7 @@ def check_config(chk, prog, cfg):
     gt = b.call_term(gets[0][1], bb=get_bb)
     karg = mir.strip_transparent(gt[2][1])
     chk.expect(karg == A_ID, "R10.O", "retain_type:lookup-key", W(get_bb), "lookup key: %s" % path_str(karg), cfg)
-    others = [bb for bb, t in b.calls() if bb != get_bb]
+    others = [bb for bb, t in b.calls() if bb != get_bb and not (last(b.callee_name(t)) == "len" and is_arg(b.operand_term(t["args"][0]), A_NEW))]
     stores_bbs = [st[1] for st in b.stores()]
     chk.expect(all(b.dominates(get_bb, x) for x in others + stores_bbs), "R10.O", "retain_type:lookup-dominates",
                W(get_bb), "mapping lookup in bb%d must dominate all other calls/stores" % get_bb, cfg)
@@ -136,7 +149,14 @@ def check_config(chk, prog, cfg):
     fresh = [a for a in alts if is_new_id(a)]
     chk.expect(len(alts) == 2 and len(hit) == 1 and len(fresh) == 1, "R10.O", "retain_type:returns", W(),
                "return value alternatives: %s (expected the mapped id on a hit, new_id otherwise)" % [path_str(a) for a in alts], cfg)
-    if hit:
+    if hit and entry_form:
+        h0 = mir.strip_transparent(hit[0])
+        okh = h0[0] == "call" and h0[1]["name"].endswith("entry::OccupiedEntry::get")
+        if okh:
+            r0 = mir.strip_transparent(h0[2][0])
+            okh = r0[0] == "field" and r0[1][0] == "downcast" and r0[1][3] == "Occupied" and r0[1][1] == gt
+        chk.expect(okh, "R10.O", "retain_type:returns-mapped", W(), "hit value: %s" % path_str(hit[0]), cfg)
+    elif hit:
         ap = paths.access_path(b, hit[0], roots={gt})
         chk.expect(ap is not None and ap[0] == gt and paths.norm(ap[1]) == "?", "R10.O", "retain_type:returns-mapped",
                    W(), "hit value: %s" % path_str(hit[0]), cfg)
@@ -216,6 +236,22 @@ def check_config(chk, prog, cfg):
         else:
             chk.unrecognised("R10.C", "store:" + path_str(lhs), W(bb), "store rooted at %s" % path_str(root), cfg)
 
+    for bb, t in b.calls():
+        if b.callee_name(t) not in rewriters:
+            continue
+        ct_ = b.call_term(t, bb=bb)
+        ap = paths.access_path(b, ct_[2][0], roots={entry})
+        q = None
+        if ap is not None and ap[0] == entry:
+            p_ = paths.norm(ap[1])
+            q = next((x for x in id_places if x == p_), None)
+        pass_through = len(ct_[2]) == 4 and mir.strip_transparent(ct_[2][1]) == A_TYPES and mir.strip_transparent(ct_[2][2]) == A_NEW and mir.strip_transparent(ct_[2][3]) == A_MAP
+        if q is None:
+            chk.fail("R10.C", "rewriter-target:" + (paths.norm(ap[1]) if ap else path_str(ct_[2][0])[:40]), W(bb),
+                     "%s is applied to %s, which is not an id-typed place of the retained entry" % (last(b.callee_name(t)), path_str(ct_[2][0])[:80]), cfg)
+            continue
+        seen_id_store.setdefault(q, []).append((pass_through, bb, "rewritten in place by %s(&mut <entry>%s, types, new_types, retained_mappings) = "
+                                                "`*p = From(retain_type(p.id, ..))`%s" % (last(b.callee_name(t)), q, "" if pass_through else " -- collections not passed through")))
     for q in id_places:
         lst = seen_id_store.get(q, [])
         if not lst:
@@ -262,6 +298,8 @@ def check_config(chk, prog, cfg):
                         continue
                     if at[2] == entry and nm == "core::mem::replace":
                         continue
+                    if nm in rewriters:
+                        continue  # judged above: the helper writes `*p = From(retain_type(p.id, ..))` and nothing else
                     chk.fail("R10.C", "mut-escape:%s:%s" % (last(nm), paths.norm(ap[1])), W(bb),
                              "&mut %s%s of the retained entry is passed to %s" % (path_str(entry), paths.norm(ap[1]), nm), cfg)
     chk.ok("R10.C", "retain_type:writes-confined", W(), "stores into entry: .id + %d id places" % len(seen_id_store), cfg)
@@ -294,6 +332,9 @@ def check_driver(chk, prog, d, rt_name, cfg):
     SELF = ("arg", 1, d.names.get(1))
     FILT = ("arg", 2, d.names.get(2))
     calls = [(bb, t) for bb, t in d.calls() if d.callee_name(t) == rt_name]
+    if not calls:
+        if check_driver_iterator_form(chk, prog, d, rt_name, cfg):
+            return
     if len(calls) != 1:
         chk.fail("R10.D", "retain:one-retain_type-call", W(), "driver calls retain_type %d times" % len(calls), cfg)
         return
@@ -381,3 +422,117 @@ def check_driver(chk, prog, d, rt_name, cfg):
     chk.expect(len(fin) == 1 and paths.access_path(d, fin[0][1])[1] == ".types" and fin[0][2] == new_types, "R10.D",
                "retain:self.types=new_types", W(fin[0][0] if fin else None), "stores to self: %s" % [(path_str(s[1]), path_str(s[2]) if s[2] else None) for s in fin], cfg)
     chk.expect(d.return_term() == mappings, "R10.D", "retain:returns-mappings", W(), "returns %s" % path_str(d.return_term()), cfg)
+
+
+def check_driver_iterator_form(chk, prog, d, rt_name, cfg):
+    """`(0..self.types.len() as u32).filter(|&id| filter(id)).for_each(|id| { retain_type(id, &mut self.types, &mut new_types, &mut retained_mappings); })`
+    — the same driver written with adapters.  Returns False when this is not that form (the caller then reports)."""
+    from ..lib import loops
+    W = lambda bb=None: d.where(bb)
+    SELF = ("arg", 1, d.names.get(1))
+    FILT = ("arg", 2, d.names.get(2))
+    fe = [(bb, d.call_term(t, bb=bb)) for bb, t in d.calls() if d.callee_decl(t) == "core::iter::traits::iterator::Iterator::for_each"]
+    if len(fe) != 1:
+        return False
+    fbb, fc = fe[0]
+    body_lam = loops.lam_of(prog, fc[2][1])
+    if body_lam is None or body_lam.kind != "closure":
+        return False
+    cb = body_lam.body
+    rcalls = [(bb, t) for bb, t in cb.calls() if cb.callee_name(t) == rt_name]
+    if len(rcalls) != 1:
+        chk.fail("R10.D", "retain:one-retain_type-call", W(fbb), "the for_each body calls retain_type %d times" % len(rcalls), cfg)
+        return True
+    rbb, rt_ = rcalls[0]
+    args = [mir.simplify(body_lam.outer(cb.operand_term(a))) for a in rt_["args"]]
+    new_types = mir.strip_transparent(args[2])
+    mappings = mir.strip_transparent(args[3])
+    types_arg = paths.access_path(d, args[1])
+    ok_coll = (new_types[0] == "var" and mappings[0] == "var" and types_arg is not None and types_arg[0] == SELF and types_arg[1] == ".types")
+    chk.expect(ok_coll, "R10.D", "retain:call-args", cb.where(rbb), "retain_type(%s)" % ", ".join(path_str(a) for a in args), cfg)
+    if not ok_coll:
+        return True
+    init_new = d.var_init(new_types[1])
+    init_map = d.var_init(mappings[1])
+    chk.expect(len(init_new) == 1 and is_call(init_new[0], "alloc::vec::Vec::new", nargs=0) and len(init_map) == 1
+               and is_call(init_map[0], "alloc::collections::btree::map::BTreeMap::new", nargs=0),
+               "R10.D", "retain:fresh-collections", W(), "new_types := %s; retained_mappings := %s" % ([path_str(x) for x in init_new], [path_str(x) for x in init_map]), cfg)
+    # nothing else touches the collections: in the driver they only flow into the closure; in the closure only into retain_type
+    touched = []
+    for body, lam in ((d, None), (cb, body_lam)):
+        for bb, t in body.calls():
+            nm = body.callee_name(t)
+            if nm == rt_name or (body is d and bb == fbb):
+                continue
+            for a in t["args"]:
+                at = body.operand_term(a)
+                at = lam.outer(at) if lam is not None else at
+                tgt = mir.strip_transparent(at)
+                ap = paths.access_path(d, at)
+                is_coll = tgt in (new_types, mappings) or (ap is not None and ap[0] == SELF and ap[1].startswith(".types"))
+                if is_coll and nm.split("::")[-1] not in ("len", "deref", "deref_mut", "new", "is_empty"):
+                    touched.append((bb, nm, path_str(at)))
+    chk.expect(not touched, "R10.D", "retain:collections-only-via-retain_type", W(touched[0][0] if touched else None),
+               "other uses of self.types / new_types / retained_mappings in the driver: %s" % [(n, a) for _, n, a in touched], cfg)
+    # the iterated ids: filter(Range{0, len(self.types) as u32}, |&id| filter(id)), the id handed to retain_type is the item
+    src = mir.simplify(fc[2][0])
+    item_ok = okf = False
+    detail = path_str(src)[:160]
+    if is_call(src, "core::iter::traits::iterator::Iterator::filter", nargs=2):
+        rng, pclo = src[2]
+        while is_call(rng, "into_iter", nargs=1):
+            rng = rng[2][0]
+        if rng[0] == "agg" and rng[2].get("adt") == "core::ops::range::Range":
+            lo, hi = rng[3]
+            hi0 = mir.uncast(hi)
+            hp = paths.access_path(d, hi0[2][0]) if is_call(hi0, "len", nargs=1) else None
+            item_ok = lo[0] == "int" and lo[1] == 0 and hp is not None and hp[0] == SELF and hp[1] == ".types" and mir.strip_transparent(args[0]) == body_lam.item
+        plam = loops.lam_of(prog, pclo)
+        if plam is not None and plam.kind == "closure":
+            pr = mir.simplify(plam.outer(plam.result))
+            if pr[0] == "call" and pr[1].get("method") in ("call_mut", "call", "call_once") and mir.strip_transparent(pr[2][0]) == FILT:
+                fa = pr[2][1]
+                okf = fa[0] == "agg" and len(fa[3]) == 1 and mir.strip_transparent(fa[3][0]) == plam.item
+        detail = "for_each over filter(%s, |id| filter(id)): range ok %s, predicate is the caller's filter on the id: %s" % (path_str(rng)[:60], item_ok, okf)
+    chk.expect(item_ok, "R10.D", "retain:ascending-all-ids", W(fbb), detail, cfg)
+    chk.expect(okf, "R10.D", "retain:call-iff-filter", W(fbb), detail, cfg)
+    st = [(bb, d.place_term(lhs), d.rvalue_term(rhs) if kind == "assign" else None) for kind, bb, j, lhs, rhs in d.stores()]
+    fin = [s_ for s_ in st if paths.access_path(d, s_[1]) and paths.access_path(d, s_[1])[0] == SELF]
+    chk.expect(len(fin) == 1 and paths.access_path(d, fin[0][1])[1] == ".types" and fin[0][2] == new_types, "R10.D",
+               "retain:self.types=new_types", W(fin[0][0] if fin else None), "stores to self: %s" % [(path_str(s_[1]), path_str(s_[2]) if s_[2] else None) for s_ in fin], cfg)
+    chk.expect(d.return_term() == mappings, "R10.D", "retain:returns-mappings", W(), "returns %s" % path_str(d.return_term()), cfg)
+    return True
+
+
+def find_rewriters(prog, rt_path):
+    """crate-local helpers nested in `retain` of the form  fn h(p: &mut Id, types, new_types, mappings) { *p = From(retain_type(p.id, types, new_types, mappings)) }
+    — calling one on an id place is the same as rewriting that place inline.  Returns the set of (generic-stripped) names."""
+    rt_name = mir.strip_generics(rt_path)
+    prefix = rt_name.rsplit("::", 1)[0] + "::"
+    out = set()
+    for p_, f in prog.fns.items():
+        sp = mir.strip_generics(p_)
+        if not sp.startswith(prefix) or sp == rt_name or f.get("kind") != "Fn":
+            continue
+        hb = prog.body(p_)
+        if hb is None or hb.arg_count != 4:
+            continue
+        P, T_, N_, M_ = [("arg", i, hb.names.get(i)) for i in (1, 2, 3, 4)]
+        calls = [(bb, hb.call_term(t, bb=bb)) for bb, t in hb.calls()]
+        rcs = [(bb, c) for bb, c in calls if c[1]["name"] == rt_name]
+        others = [c for bb, c in calls if c[1]["name"] != rt_name and last(c[1]["name"]) not in ("into", "from")]
+        if len(rcs) != 1 or others:
+            continue
+        rbb, rc = rcs[0]
+        a0 = paths.access_path(hb, rc[2][0])
+        ok = a0 is not None and a0[0] == P and paths.norm(a0[1]) == ".id" and [mir.strip_transparent(x) for x in rc[2][1:]] == [T_, N_, M_]
+        sts = hb.stores()
+        if ok and len(sts) == 1:
+            kind, sbb, j, lhs, rhs = sts[0]
+            lt = hb.place_term(lhs)
+            val = hb.rvalue_term(rhs) if kind == "assign" else hb.call_term(rhs, bb=sbb)
+            apl = paths.access_path(hb, lt)
+            okv = val[0] == "call" and last(val[1]["name"]) in ("into", "from") and len(val[2]) == 1 and val[2][0] == rc
+            if apl is not None and apl[0] == P and paths.norm(apl[1]) == "" and okv and hb.dominates(rbb, sbb):
+                out.add(sp)
+    return out
